@@ -1,6 +1,7 @@
 import PGM.Driver.C14
 import PGM.Driver.C15
 import PGM.Driver.C12
+import PGM.Driver.C01
 /-!
 Line-protocol driver: one JSON request per input line, one JSON response per output line.
 Run with `lake env lean --run Main.lean` or as the compiled `pgmdriver`.
@@ -14,6 +15,11 @@ def dispatch (req : Json) : Except String Json := do
   | "dataset" => handleDataset req
   | "domain" => handleDomain req
   | "jt" => handleJT req
+  | "bp" => handleBP req
+  | "gm_project" => handleProject req
+  | "gm_datavector" => handleGMDatavector req
+  | "krondot" => handleKrondot req
+  | "many" => handleMany req
   | _ => throw s!"unknown op {op}"
 
 def respond (line : String) : String :=
